@@ -426,7 +426,9 @@ class C19(EngineCheck):
             'successful: exactly one save per executed node, equal to the final value its consumers received; never a '
             'Recurrent marker or an exception instance; the run succeeds exactly as without the store; non-trivial = a '
             'node shared across >=2 activated scopes, a re-iteration, or a contained failure')
-    floors = {'store-relevant': 0.3}
+    floors = {'store-relevant': 0.25}
+    p_feat = 55
+    feats = ('switch', 'oneof', 'rec', 'fail', 'default', 'retry', 'generic', 'falsy')
 
     def strategy(self, tier):
         kw = self.gen_kwargs(tier)
